@@ -531,6 +531,71 @@ Proof.
   destruct r; unfold BackendDispatch.eval; rewrite ?T, E; reflexivity.
 Qed.
 
+(* ------------------------------------------------------------ the metadata of the closure *)
+Section Meta.
+Variables (R : rules) (c : cfg).
+Notation wrun := (wrun R c).
+Notation wtrace := (wtrace R c).
+
+Lemma wtrace_nth : forall h1 x o h2, nth (length h1) (wtrace x (h1 ++ o :: h2)) WNone = wout R c (wrun x h1) o.
+Proof.
+  induction h1 as [|a h1 IH]; intros x o h2; [reflexivity|]. simpl. apply IH.
+Qed.
+
+Lemma w_top_run : forall h x, w_top (wrun x h) = w_top x.
+Proof.
+  induction h as [|o h IH]; intros x; [reflexivity|].
+  change (wrun x (o :: h)) with (wrun (wnxt R c x o) h). rewrite IH. destruct o; reflexivity.
+Qed.
+
+Lemma w_cls_run : forall h x, no_wdynamic h -> w_cls (wrun x h) = w_cls x.
+Proof.
+  induction h as [|o h IH]; intros x Hn; [reflexivity|].
+  change (wrun x (o :: h)) with (wrun (wnxt R c x o) h). rewrite IH.
+  - destruct o; try reflexivity. exfalso. apply (Hn t). now left.
+  - intros t Hin. apply (Hn t). now right.
+Qed.
+
+(* the metadata does NOT follow the backend: whatever any thread selects, in any history without use_dynamic_dispatch,
+   following __wrapped__ from any thread reaches the backend the closure was made with (after import: the default) *)
+Theorem unwrap_static x h1 t top h2 :
+  no_wdynamic h1 ->
+  nth (length h1) (wtrace x (h1 ++ WUnwrap t top :: h2)) WNone = WRan (if top then w_top x else w_cls x).
+Proof.
+  intros Hn. rewrite wtrace_nth. unfold BackendDispatch.wout. simpl. rewrite w_top_run, w_cls_run; [reflexivity|assumption].
+Qed.
+
+(* the import-time bindings keep theirs even across use_dynamic_dispatch *)
+Theorem unwrap_top_static x h1 t h2 :
+  nth (length h1) (wtrace x (h1 ++ WUnwrap t true :: h2)) WNone = WRan (w_top x).
+Proof. rewrite wtrace_nth. unfold BackendDispatch.wout. simpl. now rewrite w_top_run. Qed.
+
+(* use_dynamic_dispatch by thread u makes the class closures anew, with u's backend of that moment *)
+Theorem dynamic_remakes x u h t h2 :
+  no_wdynamic h ->
+  nth (S (length h)) (wtrace x (WDynamic u :: h ++ WUnwrap t false :: h2)) WNone = WRan (cur (w_sel x) u).
+Proof.
+  intros Hn. change (WDynamic u :: h ++ WUnwrap t false :: h2) with ((WDynamic u :: h) ++ WUnwrap t false :: h2).
+  change (S (length h)) with (length (WDynamic u :: h)). rewrite wtrace_nth. unfold BackendDispatch.wout. simpl.
+  change (fold_left (wnxt R c) h (wnxt R c x (WDynamic u))) with (wrun (wnxt R c x (WDynamic u)) h).
+  now rewrite w_cls_run.
+Qed.
+
+(* while the CALL through the same closure follows the caller (the selection machine's view) *)
+Lemma w_sel_run : forall h x, w_sel (wrun x h) = run R c (w_sel x) (flat_map (fun o => match o with WSel o => [o] | _ => [] end) h).
+Proof.
+  induction h as [|o h IH]; intros x; [reflexivity|].
+  change (wrun x (o :: h)) with (wrun (wnxt R c x o) h). rewrite IH. destruct o; reflexivity.
+Qed.
+
+Theorem wcall_follows_view x h1 t top h2 :
+  nth (length h1) (wtrace x (h1 ++ WCall t top :: h2)) WNone
+  = WRan (view (tls (w_sel x) t) (shared (w_sel x))
+               (events R c (w_sel x) (flat_map (fun o => match o with WSel o => [o] | _ => [] end) h1)) t).
+Proof. rewrite wtrace_nth. unfold BackendDispatch.wout. simpl. now rewrite w_sel_run, view_correct. Qed.
+
+End Meta.
+
 (* ------------------------------------------------------------ threads that start late *)
 Section Fresh.
 Variables (R : rules) (c : cfg).
